@@ -213,6 +213,7 @@ def main(argv=None):
     tier = os.environ.get("VERIF_TIER", "quick") or "quick"
     replay = None
     root = None
+    write_ev = True
     while argv:
         a = argv.pop(0)
         if a == "--tier":
@@ -221,8 +222,10 @@ def main(argv=None):
             replay = argv.pop(0)
         elif a == "--repo":
             root = argv.pop(0)
+        elif a == "--no-evidence":
+            write_ev = False
     try:
-        rc, _, _ = run_property(pid, tier, replay, root)
+        rc, _, _ = run_property(pid, tier, replay, root, write_evidence=write_ev)
     except Exception:
         print("ANALYSIS-ERROR property=%s runner crashed:" % pid)
         traceback.print_exc()
